@@ -219,6 +219,12 @@ func vpExitFull(forward map[string]string, ftDir string) func(*config.Config) {
 // vpEchoExchange writes the pattern of `seed` in the given write sizes on c while reading
 // the echo back; returns what came back.
 func vpEchoExchange(c net.Conn, seed uint64, sizes []int, d time.Duration) ([]byte, error) {
+	return vpEchoExchangeR(c, seed, sizes, nil, d)
+}
+
+// vpEchoExchangeR reads the echo with the given read-buffer sizes (used cyclically), the
+// way an application with its own buffering would; nil = 64 KiB buffers.
+func vpEchoExchangeR(c net.Conn, seed uint64, sizes []int, reads []int, d time.Duration) ([]byte, error) {
 	total := 0
 	for _, s := range sizes {
 		total += s
@@ -239,9 +245,12 @@ func vpEchoExchange(c net.Conn, seed uint64, sizes []int, d time.Duration) ([]by
 		}
 	}()
 	got := make([]byte, 0, total)
-	buf := make([]byte, 64*1024)
+	buf := make([]byte, 128*1024)[:64*1024]
 	var rerr error
-	for len(got) < total {
+	for ri := 0; len(got) < total; ri++ {
+		if len(reads) > 0 {
+			buf = buf[:cap(buf)][:reads[ri%len(reads)]]
+		}
 		n, err := c.Read(buf)
 		got = append(got, buf[:n]...)
 		if err != nil {
